@@ -159,6 +159,18 @@ CLAIMED.update({
    design="§7 C02", technique="contract-based verification: generator-decided order-independence obligations on every map range + deny-list scan (no solver)"),
 })
 
+CLAIMED.update({
+ "C20": dict(
+   text="Deductive proof for the eleven hand-written API-specific checkers (appendAssign, appendCombine, rangeAppendAll, newDeref, badRegexp, regexpPattern, regexpSimplify, sortSlice, "
+        "filepathJoin, exitAfterDefer, flagName): resolvedQualifiedName returns exactly what types.Info resolves the callee to (builtin object, or member of the package a *types.PkgName "
+        "imports, named by import path); from the point where the callee is recognised to the Warn call either every function carries the fact `the flagged call resolves to <API>` as a "
+        "precondition that its callers discharge, or the single call that enters the analysis is gated by it; a call-graph obligation (decided by the generator) shows that inside each of "
+        "these checkers no function reaches a diagnostic except through such a contract. Rule-based checkers: one generator-decided obligation per pattern of the precompiled rule data that "
+        "names a standard package - the selected member is spelled out, which is the condition under which the rule engine resolves the qualifier through type information (assumed behaviour "
+        "of the dependency). Ten spelling-based recognisers were genuine defects and were repaired (fix: commits, see known_findings.txt); three of them were also crash sites under C01.",
+   design="§7 C20", technique="contract-based deductive verification (preconditions carried along call chains, gate clauses, SMT) + generator-decided call-graph and rule-pattern obligations"),
+})
+
 NA_REASON_PENDING = "check not built yet in this round (planned, DESIGN §7); not claimed until its obligations discharge"
 NOT_APPLICABLE = {
  "C11": "no contract within reach can state equality of Go-regexp match behaviour between a pattern and the string printed from a third-party parse tree (DESIGN §8)",
